@@ -330,15 +330,20 @@ def judge(case: Dict[str, Any], obs: Any) -> None:
                 raise Violation("unknown_message", f"request {i}: {m['type']}", backend=be)
 
 
-def run_case(case: Dict[str, Any]) -> CaseInfo:
-    cfg = dict(case["cfg"])
-    cfg["keep_alive_timeout"] = T_BIG
+def programs_for(case: Dict[str, Any]) -> Dict[str, list]:
     programs = {"*": app_program(case["app"])}
     if case.get("late_upload"):
         answer = [["send", {"type": "http.response.start", "status": 200, "headers": []}],
                   ["send", {"type": "http.response.body", "body": "unread"}], ["recv_disc"]]
         for i in range(len(case["requests"]) - 1):
             programs["#%d" % i] = answer
+    return programs
+
+
+def run_case(case: Dict[str, Any]) -> CaseInfo:
+    cfg = dict(case["cfg"])
+    cfg["keep_alive_timeout"] = T_BIG
+    programs = programs_for(case)
     h1 = case["opening"].startswith("h1")
 
     async def scenario(env: Any) -> Any:
